@@ -335,6 +335,8 @@ def _round_sig(f: fractions.Fraction, digits: _builtin_int, mode: _builtin_str) 
 CUR: Explorer | None = None
 NLSAT = __import__('os').environ.get('VERIF_NLSAT', '1')
 ROUND_MODE = "exact"  # or "uf": quantize/round as uninterpreted function + bracketing axiom
+RELAX_INT = False  # True: int()/floor/`//` results are fresh REAL-sorted terms bracketed by x-1 < r <= x (no integrality):
+#                    a sound over-approximation for proving; a refutation is only a candidate and must replay concretely.
 SLOW_LOG = [] if __import__('os').environ.get('VERIF_SLOWLOG') else None
 
 
@@ -475,8 +477,33 @@ def _floor_real(e):
     return z3.ToInt(e)  # z3 ToInt is floor
 
 
+def _relaxed_floor(e, mode="floor"):
+    """fresh real r with the bracket of floor / truncation of the real term e (memoised per path and term)"""
+    ex = cur()
+    es = z3.simplify(e)
+    key = ("relax-" + mode, es.get_id())
+    hit = ex.round_memo.get(key)
+    if hit is not None:
+        return hit[0]
+    if z3.is_const(es) and ("intlike", es.get_id()) in ex.round_memo:
+        return es  # floor of a value that is itself a (relaxed) floor: no second bracket
+    r = ex.fresh("ifloor")
+    ex.round_memo[key] = (r, es)
+    ex.round_memo[("intlike", r.get_id())] = (r, r)
+    if mode == "floor":
+        ex.add(z3.And(r <= es, es - r < 1))
+    else:  # truncation toward zero
+        ex.add(z3.If(es >= 0, z3.And(r <= es, es - r < 1, r >= 0), z3.And(r >= es, r - es < 1, r <= 0)))
+    return r
+
+
 def _trunc_int(e):
     """truncate a Real term toward zero -> Int term"""
+    es = z3.simplify(e)
+    if z3.is_app(es) and es.decl().kind() == z3.Z3_OP_TO_REAL:
+        return es.arg(0)  # already an integer
+    if RELAX_INT:
+        return _relaxed_floor(es, "trunc")
     fl = z3.ToInt(e)
     return z3.If(e >= 0, fl, z3.If(z3.ToReal(fl) == e, fl, fl + 1))
 
@@ -590,6 +617,11 @@ class Sym:
         a, b = (oe, self.e) if reflected else (self.e, oe)
         if kind == INT:
             self._zero_div(a, b, INT)
+            if RELAX_INT:
+                q = _relaxed_floor(_real(a) / _real(b), "floor")
+                if want_mod:
+                    return Sym(_real(a) - q * _real(b), INT)
+                return Sym(q, INT)
             # python floor semantics; z3 div is euclidean (floor for positive divisor)
             if z3.is_int_value(z3.simplify(b)):
                 q = z3.If(b > 0, a / b, (-a) / (-b))
@@ -603,9 +635,9 @@ class Sym:
         a, b = _real(a), _real(b)
         self._zero_div(a, b, kind)
         if kind == DEC:
-            q = z3.ToReal(_trunc_int(a / b))  # Decimal // truncates toward zero
+            q = _real(_trunc_int(a / b))  # Decimal // truncates toward zero
         else:
-            q = z3.ToReal(z3.ToInt(a / b))
+            q = _relaxed_floor(a / b) if RELAX_INT else z3.ToReal(z3.ToInt(a / b))
         if want_mod:
             return Sym(a - q * b, kind)
         return Sym(q, kind)
@@ -856,7 +888,7 @@ class Sym:
         return Sym(r * q, DEC if self.kind != FLT else FLT, rnd=(_real(self.e), qf, rounding))
 
     def __round__(self, n=None):
-        if n is None and self._ratio is not None:
+        if n is None and self._ratio is not None and not RELAX_INT:
             num, den = self._ratio
             q = num / den  # z3 integer division: floor for a positive divisor
             rem2 = 2 * (num - q * den)
@@ -925,11 +957,15 @@ class Sym:
     def __floor__(self):
         if self.kind == INT:
             return self
+        if RELAX_INT:
+            return Sym(_relaxed_floor(self.e, "floor"), INT)
         return Sym(z3.ToInt(self.e), INT)
 
     def __ceil__(self):
         if self.kind == INT:
             return self
+        if RELAX_INT:
+            return Sym(-_relaxed_floor(-self.e, "floor"), INT)
         return Sym(-z3.ToInt(-self.e), INT)
 
     # numpy dunder used by pandas for object arrays in some reductions
